@@ -79,16 +79,24 @@ fn main() {
                 let m = redo::logs::Meta::verif_new(kind, pid, ts, &text);
                 let s = format!("{}", m);
                 match redo::logs::Meta::parse(&s) {
-                    Ok(m2) => writeln!(
-                        out,
-                        "ok\t{}\t{}\t{}\t{}\t{}",
-                        hex(s.as_bytes()),
-                        m2.kind(),
-                        m2.pid(),
-                        m2.timestamp(),
-                        hex(m2.text().as_bytes())
-                    )
-                    .unwrap(),
+                    Ok(m2) => {
+                        // (the exit status and name the viewer reads out of a "done" record)
+                        let done = match m2.done_text() {
+                            Some((rv, name)) => format!("{}\t{}", rv, hex(name.as_bytes())),
+                            None => "none\t".to_string(),
+                        };
+                        writeln!(
+                            out,
+                            "ok\t{}\t{}\t{}\t{}\t{}\t{}",
+                            hex(s.as_bytes()),
+                            m2.kind(),
+                            m2.pid(),
+                            m2.timestamp(),
+                            hex(m2.text().as_bytes()),
+                            done
+                        )
+                        .unwrap()
+                    }
                     Err(e) => writeln!(out, "err\t{}\t{}", hex(s.as_bytes()), hex(e.to_string().as_bytes())).unwrap(),
                 }
             }
